@@ -335,8 +335,15 @@ func (r *c07Run) run() {
 				r.logf("batch: %s", rb.ErrString())
 			}
 		case x < 20: // outgoing bridge call by message
-			res := b.BridgeCallMsg(user, user.Acc(), sdk.NewCoins(sdk.NewCoin(tok.Base, sdkmath.NewInt(int64(5+rng.IntN(20))))), other.Hex(), []byte{1}, nil)
-			r.logf("bridge call msg: %s", res.ErrString())
+			coins := sdk.NewCoins(sdk.NewCoin(tok.Base, sdkmath.NewInt(int64(5+rng.IntN(20)))))
+			if step%3 == 1 {
+				coins = sdk.NewCoins() // a call that carries data and no tokens
+			}
+			res := b.BridgeCallMsg(user, user.Acc(), coins, other.Hex(), []byte{1}, nil)
+			r.logf("bridge call msg (%d tokens): %s", len(coins), res.ErrString())
+			if res.OK() && len(coins) == 0 {
+				r.res.Count("data_only_bridge_calls", 1)
+			}
 		case x < 28: // outgoing bridge call by precompile (ERC-20 tokens)
 			amt := big.NewInt(int64(5 + rng.IntN(20)))
 			if cr := c.Msg(&erc20types.MsgConvertCoin{Coin: sdk.NewCoin(tok.Base, sdkmath.NewIntFromBigInt(amt)), Receiver: user.Hex().Hex(), Sender: user.Bech32()}); cr.OK() {
